@@ -163,6 +163,51 @@ theorem isolation (pw : α → α → α) (lg : α → α) (cfg : EnvCfg α) (l 
       obtain ⟨e1, e2⟩ := envStep_mod_clock pw lg cfg _ s' a hh
       rw [e1, ih _ _ e2]
 
+/-- the calls one environment object can receive during its lifetime; `clock` is whatever another
+    environment of the process wrote into the shared contract clock just before the call -/
+inductive LifeOp (α : Type) where
+  | reset (lo hi : Time) (start : Nat) (clock : Option Time)
+  | step (a : Action α) (clock : Option Time)
+
+/-- the lifetime of one environment object: any number of episodes - completed, abandoned mid-way (a `reset`
+    may come at any point) or ended by an error (a refused `step` leaves a state, the next call continues from it) -/
+def runLife (pw : α → α → α) (lg : α → α) (cfg : EnvCfg α) : EnvState α → List (LifeOp α) → EnvState α
+  | s, [] => s
+  | s, .reset lo hi start c :: rest =>
+      runLife pw lg cfg (envReset cfg lo hi start ({ s with contractClock := c } : EnvState α).contractClock) rest
+  | s, .step a c :: rest => runLife pw lg cfg (envStep pw lg cfg { s with contractClock := c } a).1 rest
+
+/-- what an episode produces: the state right after `reset` and the result of every `step` -/
+def episodeResults (pw : α → α → α) (lg : α → α) (cfg : EnvCfg α) (prev : EnvState α) (lo hi : Time) (start : Nat)
+    (as : List (Action α)) : EnvState α × List (Except Err (StepOut α)) :=
+  let s0 := envReset cfg lo hi start prev.contractClock
+  (s0, runSolo pw lg cfg s0 as)
+
+/-- **Replay after any lifetime**: the episode produced by `reset` + the actions `as` is the same whatever the
+    environment object went through before - any two earlier lifetimes `h1`, `h2` (each any number of completed,
+    abandoned or failed episodes, with any interference on the shared clock), from any two starting states;
+    `h2 = []` on a fresh state is the freshly built identical environment. -/
+theorem replay_after_any_lifetime (pw : α → α → α) (lg : α → α) (cfg : EnvCfg α) (s1 s2 : EnvState α)
+    (h1 h2 : List (LifeOp α)) (lo hi : Time) (start : Nat) (as : List (Action α)) :
+    episodeResults pw lg cfg (runLife pw lg cfg s1 h1) lo hi start as =
+    episodeResults pw lg cfg (runLife pw lg cfg s2 h2) lo hi start as := by
+  unfold episodeResults
+  simp only
+  rw [reset_ignores_clock cfg lo hi start (runLife pw lg cfg s1 h1).contractClock
+    (runLife pw lg cfg s2 h2).contractClock]
+
+/-- ... and the replayed episode may itself be interleaved with another environment's calls (`clocks`): every
+    `step` still returns what the undisturbed first run returned -/
+theorem replay_after_any_lifetime_perturbed (pw : α → α → α) (lg : α → α) (cfg : EnvCfg α) (s1 s2 : EnvState α)
+    (h1 h2 : List (LifeOp α)) (lo hi : Time) (start : Nat) (l : List (Option Time × Action α)) :
+    runPerturbed pw lg cfg (envReset cfg lo hi start (runLife pw lg cfg s1 h1).contractClock) l =
+    (episodeResults pw lg cfg (runLife pw lg cfg s2 h2) lo hi start (l.map (·.2))).2 := by
+  unfold episodeResults
+  simp only
+  rw [reset_ignores_clock cfg lo hi start (runLife pw lg cfg s1 h1).contractClock
+    (runLife pw lg cfg s2 h2).contractClock]
+  exact isolation pw lg cfg l _ _ (SameButClock.refl _)
+
 /-- the partitions (and the whole configuration) are not part of the state: no episode can change them -/
 theorem partitions_immutable (pw : α → α → α) (lg : α → α) (cfg : EnvCfg α) (s : EnvState α) (a : Action α) :
     ∀ g, cfg.tx.latent g = cfg.tx.latent g ∧ cfg.tx.nonlatent g = cfg.tx.nonlatent g := fun _ => ⟨rfl, rfl⟩
